@@ -179,6 +179,9 @@ func buildPaths(h *expr.HTTPExpr, bodies map[string]map[string]*EndpointBodies, 
 
 			for _, key := range f.RequestPaths {
 				operation := buildFileServerOperation(key, f, api)
+				// Remove any wildcards that is defined in path as a workaround to
+				// https://github.com/OAI/OpenAPI-Specification/issues/291
+				key = expr.HTTPWildcardRegex.ReplaceAllString(key, "/{$1}")
 				path, ok := paths[key]
 				if !ok {
 					path = new(PathItem)
@@ -382,6 +385,7 @@ func buildFileServerOperation(key string, fs *expr.HTTPFileServerExpr, api *expr
 					Description: "Relative file path",
 					In:          "path",
 					Required:    true,
+					Schema:      &openapi.Schema{Type: openapi.String},
 				},
 			}
 			params = []*ParameterRef{&pref}
